@@ -299,14 +299,14 @@ func (g *Gen) outcomeFor(kind string, status int) string {
 		case r.Chance(1, 2):
 			return "ze"
 		default:
-			return "e:" + strconv.Itoa(r.Intn(2))
+			return "e:" + strconv.Itoa(r.Intn(4))
 		}
 	case "hook", "delete":
 		if r.Intn(1000) < g.F.BadOutcomes {
 			if g.F.LostInFn && r.Bool() { // the process loses its role while the function runs; the function then fails
 				return "l:" + strconv.Itoa(r.Intn(2))
 			}
-			return "e:" + strconv.Itoa(r.Intn(2))
+			return "e:" + strconv.Itoa(r.Intn(4))
 		}
 		return "k"
 	}
@@ -351,7 +351,7 @@ func (g *Gen) outcomeFor(kind string, status int) string {
 		}
 		return "e:0"
 	default:
-		return "e:" + strconv.Itoa(r.Intn(2))
+		return "e:" + strconv.Itoa(r.Intn(4))
 	}
 }
 
